@@ -13,6 +13,7 @@ mod choices;
 mod common;
 mod des;
 mod fam_block;
+mod fam_expiry;
 mod fam_hostile;
 mod fam_observe;
 mod fam_sink;
@@ -168,6 +169,21 @@ fn props() -> Vec<PropCfg> {
             real: OBS_REAL,
             stub: OBS_STUB,
         },
+        PropCfg {
+            id: "C20",
+            family: "expiry",
+            level: "exploration",
+            quick_runs: 60_000,
+            thorough_runs: 1_500_000,
+            rule: "One evaluation = one seeded simulated run of the `expiry` family: cache_expiry_duration drawn from {20-60 ms, 1 s, 120 s, 1 h, 49 days}; an observed download (cached response) or upload (buffered prefix) of 3-8 blocks is paused before each exchange for an idle gap drawn relative to the expiry (0, 1/10, 1/2, expiry-1ns, expiry, expiry+1ns, 4x, 1000x, or a chain of gaps each 0.6x); meanwhile 0-2000 noise requests on up to 12 other keys and 0-50 abandoned transfers of other endpoints touch the handler. The fixed-latency network makes arrival-time differences exact, so the reference model (key -> last touch) is two-sided and exact: alive iff idle < expiry, expired iff idle > expiry, either at equality. After EVERY handler call the hook snapshot of physically held entries (clock rewound to 0 for the read) is compared with the model. Non-trivial = runs whose observed transfer had at least one non-zero idle gap evaluated; distinct = distinct (kind, per-gap class and bucket relative to the expiry) sequences, counted by 64-bit hash.",
+            assumptions: &[
+                "the handler reads time through lru_time_cache's clock type (canary: a run in which the handler never reads the simulated clock aborts the check with exit 2, not 1)",
+                "uses the cfg(coap_lite_verif) snapshot hook for the held-entries comparison",
+                "at idle == expiry exactly both outcomes are accepted",
+            ],
+            real: REAL_BLOCK,
+            stub: STUB_BLOCK,
+        },
     ]
 }
 
@@ -195,6 +211,7 @@ fn run_family(family: &str, ch: &mut Ch, verbose: bool) -> Result<Outcome, Strin
         "hostile" => Ok(fam_hostile::run(ch, verbose)),
         "sink" => Ok(fam_sink::run(ch, verbose)),
         "observe" => Ok(fam_observe::run(ch, verbose)),
+        "expiry" => Ok(fam_expiry::run(ch, verbose)),
         _ => Err(format!("unknown family {}", family)),
     }
 }
@@ -314,6 +331,10 @@ fn batch(family: &str, prop: Option<&str>, base_seed: u64, runs: u64, threads: u
                             break;
                         }
                     };
+                    if let Some(e) = &o.harness_error {
+                        *err.lock().unwrap() = Some(format!("run {} (seed {}): {}", i, run_seed(base_seed, i), e));
+                        break;
+                    }
                     a.runs += 1;
                     a.units += o.units;
                     a.faulty_runs += o.faulty_cfg as u64;
